@@ -467,11 +467,11 @@ class NumericalHessianCalculator:
             func_name = "_cdiff_row" if self._do_c_diff else "_diff_row"
 
             jobs = [
-                pool.submit(hashable(func_name, self), i, k)
+                (3 * i + k, pool.submit(hashable(func_name, self), i, k))
                 for (i, k) in self._idxs_to_calculate()
             ]
 
-            for row_idx, row in enumerate(jobs):
+            for row_idx, row in jobs:
                 self._hessian[row_idx, :] = row.result()
 
         return None
@@ -479,13 +479,13 @@ class NumericalHessianCalculator:
     def _calculate_in_serial(self) -> None:
         """Calculate the Hessian rows in serial"""
 
-        for row_idx, (i, k) in enumerate(self._idxs_to_calculate()):
+        for i, k in self._idxs_to_calculate():
             row = (
                 self._cdiff_row(i, k)
                 if self._do_c_diff
                 else self._diff_row(i, k)
             )
-            self._hessian[row_idx, :] = row
+            self._hessian[3 * i + k, :] = row
 
         return None
 
